@@ -50,7 +50,7 @@ def check_day_count(ctx, Numeric):
     problems = []
 
     def run(label, year_fn):
-        N.run(DTD, label=label, overrides={'year': year_fn}, variants=('fixed',))
+        N.run(DTD, label=label, overrides={'year@1': year_fn}, variants=('fixed',))
         per_month = {}
         for args, st0, outs in N.results.get(label, []):
             mv, dv = args[1][1], args[2][1]
